@@ -305,7 +305,7 @@ def run(ck, F):
         'oversize boundaries).  The reserved-word table is read from its initialiser.')
     ck.assume('std::hash / std::map / std::find_if / std::lower_bound / std::copy behave as specified')
     S = Sym(F, opaque=lambda fid: F.fn.get(fid) is None or F.fn[fid]['name'] in ('word_if_known', 'make_string'), max_depth=40)
-    f = F.need_fn(INTERN)
+    f = F.intern_fn()
     try:
         outs = S.run(f['id'])
     except Unsupported as e:
